@@ -12,6 +12,8 @@ Protocol (one op per line):
   add <i> <j> <t> | remove <i> <j> | remove_to <i> | remove_bonds | merge | concat | concat3
   offset <k> | rm_arom | rm_order
   getitem mask|smask|blist <0101|_>  |  getitem arr|list <ints|_>  |  getitem slice <a|-> <b|-> <c|->
+  optional trailing ` @i8|i16|i32|i64|ip|u8|u16|u32|u64` on add/remove/remove_to/get_bonds/getitem int/contains/getitem arr:
+  the indices are passed as NumPy integer scalars / an index array of that dtype
   get_bonds <i> | getitem int <i> | all_bonds | adj | types | graph | contains <i> <j> | eq | count
 """
 import os
@@ -23,7 +25,8 @@ DRIVER_MODULE = "BiotiteModel.Driver.C02"
 EXT_MODULES = ["biotite.structure.bonds"]
 GEN_FILES = ["BiotiteModel/Gen/C02.lean"]
 RULE = ("seeded histories of 1-30 BondList operations over two lists of 0-8 atoms (all 10 bond types, duplicate and "
-        "reversed pairs, negative indices, masks / unsorted index arrays / lists / slices with steps), every op "
+        "reversed pairs, negative indices, masks / unsorted index arrays of every integer dtype / lists / slices with steps, "
+        "scalar indices as Python ints and NumPy integer scalars, returned objects overwritten / kept across ops), every op "
         "compared with the Lean model and with an independent dict[frozenset]->type reference on all views; a "
         "separate invalid-index stream (i < -n, i >= n, outside int32, wrong-length masks) runs in a forked child. "
         "non-trivial = the history reaches a list with >= 2 bonds or an error/crash outcome; distinct = different op text")
@@ -80,6 +83,38 @@ def _parse_bits(s):
 
 def _opt(s):
     return None if s == "-" else int(s)
+
+
+# Optional trailing token `@<dtype>` on ops with scalar atom indices or an integer index array: the index is passed as a
+# NumPy integer scalar / an array of that dtype instead of a Python int / int64 (the model ignores the token: every
+# integer object denoting the same number must behave the same).
+DT_RANGE = {"i8": (-2 ** 7, 2 ** 7 - 1), "i16": (-2 ** 15, 2 ** 15 - 1), "i32": (-2 ** 31, 2 ** 31 - 1),
+            "i64": (-2 ** 63, 2 ** 63 - 1), "ip": (-2 ** 63, 2 ** 63 - 1), "u8": (0, 2 ** 8 - 1), "u16": (0, 2 ** 16 - 1),
+            "u32": (0, 2 ** 32 - 1), "u64": (0, 2 ** 64 - 1)}
+
+
+def _np_type(name):
+    import numpy as np
+    return {"i8": np.int8, "i16": np.int16, "i32": np.int32, "i64": np.int64, "ip": np.intp,
+            "u8": np.uint8, "u16": np.uint16, "u32": np.uint32, "u64": np.uint64}[name]
+
+
+def _dt(w):
+    return w[-1][1:] if w and w[-1].startswith("@") else None
+
+
+def _sc(x, w):
+    """the scalar index as the op line asks for it: Python int, or a NumPy integer scalar"""
+    d = _dt(w)
+    return int(x) if d is None else _np_type(d)(int(x))
+
+
+def _tok(rng, values, p=0.5):
+    """a random ` @dtype` suffix whose dtype can hold all the values ('' with probability 1-p)"""
+    if rng.random() >= p:
+        return ""
+    fit = [d for d, (lo, hi) in sorted(DT_RANGE.items()) if all(lo <= v <= hi for v in values)]
+    return " @" + rng.choice(fit) if fit else ""
 
 
 def _bits(bs):
@@ -230,7 +265,7 @@ def _index_object(w):
     if kind == "blist":
         return [bool(b) for b in _parse_bits(w[2])]
     if kind == "arr":
-        return np.array(_parse_ints(w[2]), dtype=np.int64)
+        return np.array(_parse_ints(w[2]), dtype=_np_type(_dt(w) or "i64"))
     if kind == "list":
         return _parse_ints(w[2])
     if kind == "slice":
@@ -262,11 +297,11 @@ def _do(st, w):
         st.aux = st.cur.copy()
         return _state_line(st.aux)
     if op == "add":
-        st.cur.add_bond(int(w[1]), int(w[2]), int(w[3]))
+        st.cur.add_bond(_sc(w[1], w), _sc(w[2], w), int(w[3]))
     elif op == "remove":
-        st.cur.remove_bond(int(w[1]), int(w[2]))
+        st.cur.remove_bond(_sc(w[1], w), _sc(w[2], w))
     elif op == "remove_to":
-        st.cur.remove_bonds_to(int(w[1]))
+        st.cur.remove_bonds_to(_sc(w[1], w))
     elif op == "remove_bonds":
         st.cur.remove_bonds(st.aux)
     elif op == "merge":
@@ -282,11 +317,11 @@ def _do(st, w):
     elif op == "rm_order":
         st.cur.remove_bond_order()
     elif op == "getitem" and w[1] == "int":
-        return "ok " + _nb(*st.cur[int(w[2])])
+        return "ok " + _nb(*st.cur[_sc(w[2], w)])
     elif op == "getitem":
         st.cur = st.cur[_index_object(w)]
     elif op == "get_bonds":
-        return "ok " + _nb(*st.cur.get_bonds(int(w[1])))
+        return "ok " + _nb(*st.cur.get_bonds(_sc(w[1], w)))
     elif op == "all_bonds":
         b, t = st.cur.get_all_bonds()
         rows = []
@@ -305,7 +340,7 @@ def _do(st, w):
         g = st.cur.as_graph()
         return "ok " + _triples((min(a, b), max(a, b), int(d["bond_type"])) for a, b, d in g.edges(data=True))
     elif op == "contains":
-        return "ok " + ("1" if (int(w[1]), int(w[2])) in st.cur else "0")
+        return "ok " + ("1" if (_sc(w[1], w), _sc(w[2], w)) in st.cur else "0")
     elif op == "eq":
         return "ok " + ("1" if st.cur == st.aux else "0")
     elif op == "count":
@@ -573,6 +608,18 @@ def _views_disagree(bl, ref):
             b2, t2 = bl[idx]
             if sorted(zip(b2.tolist(), t2.tolist())) != want:
                 out.append(("getitem_int", f"[{idx}] differs from {want}"))
+            # the same number as a NumPy integer scalar (what np.where / np.argmax / iterating an index array give)
+            names = [d for d, (lo, hi) in sorted(DT_RANGE.items()) if lo <= idx <= hi]
+            for dname in (names[(k + idx) % len(names)],):
+                npi = _np_type(dname)(idx)
+                for vname, call in (("getitem_int", lambda: bl[npi]), ("get_bonds", lambda: bl.get_bonds(npi))):
+                    try:
+                        b3, t3 = call()
+                        got3 = sorted(zip(b3.tolist(), t3.tolist()))
+                    except Exception as e:  # noqa: BLE001
+                        got3 = "ERR:" + type(e).__name__
+                    if got3 != want:
+                        out.append((vname + "-numpy-scalar", f"index np.{np.dtype(_np_type(dname)).name}({idx}) -> {got3}, expected {want}"))
         row = sorted((x, y) for x, y in zip(ab[k].tolist(), at[k].tolist()) if x != -1 or y != -1)
         if row != want:
             out.append(("get_all_bonds", f"row {k} = {row}, expected {want}"))
@@ -951,7 +998,7 @@ def _rand_index(rng, n):
         if rng.random() < 0.5:
             sel.sort()
         sel = [i - n if rng.random() < 0.3 else i for i in sel]
-        return f"getitem {kind} {_ints(sel)}"
+        return f"getitem {kind} {_ints(sel)}" + (_tok(rng, sel, 0.6) if kind == "arr" else "")
     lim = n + 2
 
     def b():
@@ -980,7 +1027,7 @@ def _valid_op(rng, refs):
         else:
             i, j = rng.randrange(n), rng.randrange(n)
         i, j = [x - n if rng.random() < 0.3 else x for x in (i, j)]
-        return f"add {i} {j} {rng.randrange(10)}"
+        return f"add {i} {j} {rng.randrange(10)}" + _tok(rng, [i, j], 0.35)
     if k == "remove":
         if cur.m and rng.random() < 0.7:
             i, j = rng.choice(sorted(cur.m))
@@ -989,9 +1036,10 @@ def _valid_op(rng, refs):
         else:
             i, j = rng.randrange(n), rng.randrange(n)
         i, j = [x - n if rng.random() < 0.3 else x for x in (i, j)]
-        return f"remove {i} {j}"
+        return f"remove {i} {j}" + _tok(rng, [i, j], 0.35)
     if k == "remove_to":
-        return f"remove_to {rng.randrange(-n, n)}"
+        i = rng.randrange(-n, n)
+        return f"remove_to {i}" + _tok(rng, [i], 0.35)
     if k == "getitem":
         return _rand_index(rng, n)
     if k == "view":
@@ -999,16 +1047,19 @@ def _valid_op(rng, refs):
         if v in ("get_bonds", "getitem_int", "contains") and n == 0:
             v = "count"
         if v == "get_bonds":
-            return f"get_bonds {rng.randrange(-n, n)}"
+            i = rng.randrange(-n, n)
+            return f"get_bonds {i}" + _tok(rng, [i])
         if v == "getitem_int":
-            return f"getitem int {rng.randrange(-n, n)}"
+            i = rng.randrange(-n, n)
+            return f"getitem int {i}" + _tok(rng, [i], 0.7)
         if v == "contains":
             if cur.m and rng.random() < 0.5:
                 i, j = rng.choice(sorted(cur.m))
                 if rng.random() < 0.5:
                     i, j = j, i
-                return f"contains {i} {j}"
-            return f"contains {rng.randrange(n + 2)} {rng.randrange(n + 2)}"
+                return f"contains {i} {j}" + _tok(rng, [i, j], 0.35)
+            i, j = rng.randrange(n + 2), rng.randrange(n + 2)
+            return f"contains {i} {j}" + _tok(rng, [i, j], 0.35)
         return v
     if k in ("new", "aux"):
         m = rng.randint(0, 8)
@@ -1046,9 +1097,11 @@ def _malformed_op(rng, refs):
     bad_lo = rng.choice([-n - 1, -n - 1, -n - 2, -n - 5, -2 ** 31])
     ok = rng.randrange(-n, n) if n else 0
     if r < 0.18:
-        return f"get_bonds {rng.choice([bad_hi, bad_lo, big])}"
+        i = rng.choice([bad_hi, bad_lo, big])
+        return f"get_bonds {i}" + _tok(rng, [i], 0.3)
     if r < 0.26:
-        return f"getitem int {rng.choice([bad_hi, bad_lo])}"
+        i = rng.choice([bad_hi, bad_lo])
+        return f"getitem int {i}" + _tok(rng, [i], 0.5)
     if r < 0.38:
         i = rng.choice([bad_hi, bad_lo, big])
         return rng.choice([f"remove {i} {ok}", f"remove {ok} {i}"]) if n else f"remove {i} {i}"
@@ -1153,6 +1206,12 @@ def _exhaustive():
 
 def corpus():
     return [
+        # every integer object denoting the same atom index behaves the same (NumPy scalars, index arrays of any integer dtype)
+        {"kind": "history", "ops": ["new 6 0,1,1;2,1,2;1,5,6;3,4,5", "getitem int 2 @i64", "getitem int 0 @u8", "getitem int -5 @i8",
+                                    "getitem int 1 @ip", "get_bonds 1 @u64", "contains 1 2 @u32", "add 1 3 2 @i32", "remove 1 0 @u16",
+                                    "remove_to -1 @i16", "getitem arr 3,0,1,4 @u16", "getitem arr -1,0 @i8", "all_bonds"]},
+        {"kind": "invalid", "ops": ["new 4 0,1,1;1,2,2;3,0,5", "getitem int 4 @u8", "getitem int -5 @i64", "get_bonds -6 @i16",
+                                    "getitem arr 0,4 @u64", "getitem arr 1,1 @i32"]},
         # sentinel crash: -n-1 wraps to (uint32)-1 == the `except -1` error value
         {"kind": "invalid", "ops": ["new 4 0,1,1;1,2,2;3,0,5", "get_bonds -5", "get_bonds -6", "get_bonds 4", "get_bonds 2147483648",
                                     "remove -5 0", "remove_to -5", "remove -6 0", "remove_to -6", "add -5 0 1", "add 4 0 1", "all_bonds"]},
